@@ -74,18 +74,29 @@ class _Bool(T):
 class _Bytes(T):
     """bytes of any length (symbolic), or of fixed length n (`Bytes(n)`), or bounded (`Bytes(max=n)`)."""
 
-    def __init__(self, n=None, max=None):
-        self.n, self.max = n, max
+    def __init__(self, n=None, max=None, split=False):
+        self.n, self.max, self.split = n, max, split
 
-    def __call__(self, n=None, max=None):
-        return _Bytes(n, max)
+    def __call__(self, n=None, max=None, split=False):
+        return _Bytes(n, max, split)
 
     def fresh(self, ctx, name):
+        if self.split and self.max is not None:
+            # one path per length 0..max: every byte is then an explicit item
+            ln = ctx.fresh_int('len(%s)' % name)
+            ctx.assume(z3.And(ln >= 0, ln <= self.max))
+            k = ctx.concretize(ln, limit=self.max + 2, what='length of ' + name)
+            items = []
+            for i in range(k):
+                c = ctx.fresh_int('%s[%d]' % (name, i))
+                ctx.byte_fact(c)
+                items.append(c)
+            return SBytes(items=items) if items else b''
         if self.n is not None:
             items = []
             for i in range(self.n):
                 c = ctx.fresh_int('%s[%d]' % (name, i))
-                ctx.fact(z3.And(c >= 0, c <= 255))
+                ctx.byte_fact(c)
                 items.append(c)
             return SBytes(items=items)
         s = ctx.fresh_seq(name)
